@@ -820,6 +820,14 @@ impl SetU32 {
     }
     /// Create a set with the given capacity and bits
     pub fn with_capacity_and_bits(cap: usize, bits: u32) -> SetU32 {
+        // The header stores the capacity as a `u32`, so a larger hint is reduced to
+        // that, after the usual check that the request is not absurdly large.
+        let cap = if cap > u32::MAX as usize {
+            layout_for_capacity(cap);
+            u32::MAX as usize
+        } else {
+            cap
+        };
         if cap > 0 {
             unsafe {
                 let ptr = std::alloc::alloc_zeroed(layout_for_capacity(cap)) as *mut S;
